@@ -330,9 +330,39 @@ def run_case(case):
                 shutil.rmtree(p, ignore_errors=True)
         rel = lambda p: list(Path(p).relative_to(states).parts)  # noqa: E731
         return {"root": rel(root), "ops": [[k, rel(p), s] for (k, p), s in zip(ops, sizes)], "older": [rel(p) for p in older],
-                "results": results, "kills": kills}
+                "results": results, "kills": kills, "collision": name_collision(Path(tmp) / "coll")}
     finally:
         shutil.rmtree(tmp, ignore_errors=True)
+
+
+def name_collision(d):
+    """a save that fails because its directory name is taken (a coarse name format, two saves within one clock tick):
+    it must raise and leave the completed state that owns the name exactly as it was"""
+    from pamiq_core.state_persistence import PersistentStateMixin, StateStore
+
+    class Blob(PersistentStateMixin):
+        def __init__(self, payload):
+            self.payload = payload
+
+        def save_state(self, path):
+            path.mkdir()
+            (path / "blob.bin").write_bytes(self.payload)
+
+        def load_state(self, path):
+            self.payload = (path / "blob.bin").read_bytes()
+
+    d.mkdir()
+    st = StateStore(d, state_name_format="fixed-name.state")
+    st.register("a", Blob(b"first " * 50))
+    st.register("b", Blob(b"second " * 20))
+    first = st.save_state()
+    before = tree_hash(first)
+    raised = None
+    try:
+        st.save_state()
+    except BaseException as e:  # noqa: BLE001
+        raised = type(e).__name__
+    return {"raised": raised, "intact": os.path.isdir(first) and tree_hash(first) == before}
 
 
 def child_main(arg):
